@@ -165,4 +165,31 @@ PROPS = {
             "octseq Truncate is modelled by a prelude trait (truncate keeps the first len octets)",
         ],
     },
+    "C04": {
+        "level": "other",
+        "units": [],
+        "kani": [
+            {"group": "g0", "name": "c04_label_order_eq_hash_len8_bounded", "kind": "bounded", "tier": "quick", "timeout": 300,
+             "bound": "two labels of at most 8 octets, all contents",
+             "what": "Label: cmp == RFC 4034 6.1 order on lower-cased octets; == <=> cmp Equal; partial_cmp == Some(cmp); antisymmetry; "
+                     "equal labels write the same bytes to any Hasher; composed_cmp/lowercase_composed_cmp == order of [len]++octets"},
+            {"group": "g0", "name": "c04_label_order_eq_hash_len63", "kind": "complete", "tier": "thorough", "timeout": 3000,
+             "what": "the same for two labels of any length up to the type's 63-octet limit (complete for Label)"},
+            {"group": "g0", "name": "c04_label_order_transitive_bounded", "kind": "bounded", "tier": "quick",
+             "bound": "three labels of at most 4 octets", "what": "transitivity of <= and of == on labels"},
+            {"group": "g0", "name": "c04_record_eq_implies_hash_eq", "kind": "complete", "tier": "quick",
+             "what": "Record<u8, A>: == <=> (class, data) equal, for all classes, TTL pairs and addresses; equal records write the same "
+                     "bytes to any Hasher (the generic Hash impl does not look into the owner type)"},
+        ],
+        "replays": [
+            {"bin": "d7_record_hash_ttl", "finding": "D7"},
+        ],
+        "explanation": "bounded/complete contract checking with Kani on the compiled generic code (the comparison code is written with "
+                       "iterator adapters, outside Verus): label order, equality and hash coherence and the RFC 4034 section 6.1 "
+                       "label order, complete up to the 63-octet limit in the thorough tier; Record Eq/Hash coherence over all "
+                       "classes, TTLs and A data.",
+        "not_covered": "Names across representations (flat, compressed in a message, chained): name_eq/name_cmp/Hash for ToName and "
+                       "canonical name order (CBMC does not terminate on 12-octet names within the budget), CharStr, canonical "
+                       "ordering of record data per type versus canonical wire form, Record::canonical_cmp.",
+    },
 }
